@@ -503,11 +503,18 @@ where
             return;
         }
         // matrix of weighted model function values
-        let Phi_w = self.model.eval().ok().map(|Phi| &self.weights * Phi);
+        let Phi_w = self
+            .model
+            .eval()
+            .ok()
+            .map(|Phi| &self.weights * Phi)
+            // the SVD must not be fed non-finite values: it panics or
+            // does not terminate for matrices containing NaN or infinities
+            .filter(|Phi_w| Phi_w.iter().all(|elem| elem.is_finite()));
 
         // calculate the svd
         let svd_epsilon = self.svd_epsilon;
-        let current_svd = Phi_w.as_ref().map(|Phi_w| Phi_w.clone().svd(true, true));
+        let current_svd = Phi_w.as_ref().and_then(|Phi_w| checked_svd(Phi_w.clone()));
         let linear_coefficients = current_svd
             .as_ref()
             .and_then(|svd| svd.solve(&self.Y_w, svd_epsilon).ok());
@@ -642,11 +649,18 @@ where
             return;
         }
         // matrix of weighted model function values
-        let Phi_w = self.model.eval().ok().map(|Phi| &self.weights * Phi);
+        let Phi_w = self
+            .model
+            .eval()
+            .ok()
+            .map(|Phi| &self.weights * Phi)
+            // the SVD must not be fed non-finite values: it panics or
+            // does not terminate for matrices containing NaN or infinities
+            .filter(|Phi_w| Phi_w.iter().all(|elem| elem.is_finite()));
 
         // calculate the svd
         let svd_epsilon = self.svd_epsilon;
-        let current_svd = Phi_w.as_ref().map(|Phi_w| Phi_w.clone().svd(true, true));
+        let current_svd = Phi_w.as_ref().and_then(|Phi_w| checked_svd(Phi_w.clone()));
         let linear_coefficients = current_svd
             .as_ref()
             .and_then(|svd| svd.solve(&self.Y_w, svd_epsilon).ok());
@@ -753,6 +767,32 @@ where
         } else {
             None
         }
+    }
+}
+
+/// Calculate the singular value decomposition (with the singular values sorted
+/// in descending order) of the given matrix. In contrast to calling `svd` on the
+/// matrix, this will neither panic nor iterate forever if the decomposition
+/// breaks down (which happens for matrices with an extreme dynamic range of
+/// elements). It returns `None` if the algorithm does not converge in a reasonable
+/// number of iterations or if the decomposition contains non-finite values.
+fn checked_svd<ScalarType>(matrix: DMatrix<ScalarType>) -> Option<SVD<ScalarType, Dyn, Dyn>>
+where
+    ScalarType: ComplexField,
+    ScalarType::RealField: Float,
+{
+    // same convergence threshold that nalgebra uses for `svd`
+    let eps = <ScalarType::RealField as Float>::epsilon() * nalgebra::convert(5.0);
+    let max_niter = 1000 * matrix.nrows().min(matrix.ncols()).max(1);
+    let mut svd = SVD::try_new_unordered(matrix, true, true, eps, max_niter)?;
+    let is_finite = svd.singular_values.iter().all(|sigma| sigma.is_finite())
+        && svd.u.iter().flatten().all(|elem| elem.is_finite())
+        && svd.v_t.iter().flatten().all(|elem| elem.is_finite());
+    if is_finite {
+        svd.sort_by_singular_values();
+        Some(svd)
+    } else {
+        None
     }
 }
 
